@@ -29,33 +29,52 @@ var c15Authors = []string{"Ann", "Bob Lee"}
 var c15Subjects = []string{"misc cleanup", "feat: add x", "fix(core): repair y"}
 
 // renameNotation renders old->new the way `git log --numstat` prints renames.
-func renameNotation(old, new string) string {
-	os, ns := strings.Split(old, "/"), strings.Split(new, "/")
-	// common prefix (whole directories) and common suffix
-	p := 0
-	for p < len(os)-1 && p < len(ns)-1 && os[p] == ns[p] {
-		p++
+func renameNotation(a, b string) string {
+	// a transcription of git's pprint_rename (diff.c): common prefix ending in a slash, common suffix starting
+	// with a slash (which may be the slash that ends the prefix), the differing middles in braces
+	la, lb := len(a), len(b)
+	pfx := 0
+	for i := 0; i < la && i < lb && a[i] == b[i]; i++ {
+		if a[i] == '/' {
+			pfx = i + 1
+		}
 	}
-	s := 0
-	for s < len(os)-1-p && s < len(ns)-1-p && os[len(os)-1-s] == ns[len(ns)-1-s] {
-		s++
+	at := func(s string, i int) byte {
+		if i == len(s) {
+			return 0
+		}
+		return s[i]
 	}
-	if p == 0 && s == 0 {
-		return old + " => " + new
+	adj := 0
+	if pfx > 0 {
+		adj = 1
 	}
-	pre := strings.Join(os[:p], "/")
-	if pre != "" {
-		pre += "/"
+	sfx := 0
+	for oi, ni := la, lb; pfx-adj <= oi && pfx-adj <= ni && at(a, oi) == at(b, ni); oi, ni = oi-1, ni-1 {
+		if at(a, oi) == '/' {
+			sfx = la - oi
+		}
 	}
-	suf := strings.Join(os[len(os)-s:], "/")
-	if suf != "" {
-		suf = "/" + suf
+	am, bm := la-pfx-sfx, lb-pfx-sfx
+	if am < 0 {
+		am = 0
 	}
-	return pre + "{" + strings.Join(os[p:len(os)-s], "/") + " => " + strings.Join(ns[p:len(ns)-s], "/") + "}" + suf
+	if bm < 0 {
+		bm = 0
+	}
+	var sb strings.Builder
+	if pfx+sfx > 0 {
+		sb.WriteString(a[:pfx] + "{")
+	}
+	sb.WriteString(a[pfx:pfx+am] + " => " + b[pfx:pfx+bm])
+	if pfx+sfx > 0 {
+		sb.WriteString("}" + a[la-sfx:])
+	}
+	return sb.String()
 }
 
 // c15Step extends the history by one commit chosen from the menu enabled in the current tree.
-func c15Step(c *engine.C, idx int, exists map[string]bool, order []string) hCommit {
+func c15Step(c *engine.C, idx int, exists map[string]bool, order []string, deep bool) hCommit {
 	pfx := fmt.Sprintf("c%d-", idx)
 	cm := hCommit{Rev: fmt.Sprintf("%07x", 0xabc1000+idx), Date: fmt.Sprintf("2020-01-%02d", idx+1)}
 	cm.Author = c15Authors[c.Choose(len(c15Authors), pfx+"author")]
@@ -77,7 +96,12 @@ func c15Step(c *engine.C, idx int, exists map[string]bool, order []string) hComm
 	}
 	var menu []op
 	fresh := ""
-	for _, p := range []string{"d/a.txt", "r.txt", "d/b.txt"} {
+	paths := []string{"d/a.txt", "r.txt", "d/s/c.txt", "d/b.txt"}
+	if deep {
+		// the first file lies two levels down, so that renames of it have multi-element prefixes and rests
+		paths = []string{"d/s/a.txt", "r.txt", "d/a.txt", "d/b.txt"}
+	}
+	for _, p := range paths {
 		if !exists[p] {
 			fresh = p
 			break
@@ -107,6 +131,10 @@ func c15Step(c *engine.C, idx int, exists map[string]bool, order []string) hComm
 		}
 		cands := []string{}
 		if dir != "" {
+			if i := strings.Index(dir, "/"); i >= 0 {
+				// a level inserted above a sub-directory: git prints d/{ => m}/s/c.txt (empty old side, multi-element rest)
+				cands = append(cands, dir[:i]+"/m"+dir[i:]+"/"+base, dir[i+1:]+"/"+base)
+			}
 			cands = append(cands, dir+"/n"+base, "e/"+base, dir+"/sub/"+base, base)
 		} else {
 			cands = append(cands, "d/"+base, "n"+base)
@@ -158,11 +186,12 @@ func c15History(c *engine.C, maxDepth int) []hCommit {
 	if maxDepth > 1 {
 		n = 1 + c.Choose(maxDepth, "commits") // 1..maxDepth, default 1
 	}
+	deep := c.Bool("first-file-two-levels-down")
 	exists := map[string]bool{}
 	var order []string
 	var h []hCommit
 	for i := 0; i < n; i++ {
-		cm := c15Step(c, i, exists, order)
+		cm := c15Step(c, i, exists, order, deep)
 		c15ApplyTree(exists, &order, cm)
 		h = append(h, cm)
 	}
